@@ -59,13 +59,16 @@ def hint_instances(tier, seed, start_id=1):
                 g = gen_graph(rng, sc, 5)
                 q = edge_node("Nodes", props=[prop_node("id", outputs=["rid"]), prop_node("tags", tags=["t"])], edges=[mk()])
                 out.append(make_instance(start_id + len(out), sc, g, q, {}, cls={"family": "hints", "source": "root_list", "op": op, "combo": "dyn", "target": tname}))
+    # purely static filters: every operator x every constant of a small set that includes the special ones (negative, zero)
+    consts = [I(-1), I(0), I(2)] if tier == "quick" else [I(-2), I(-1), I(0), I(1), I(2), I(3)]
     for op in SCALAR_OPS + ["one_of", "not_one_of", "is_null", "is_not_null"]:
         for tname, mk in targets([FNone(op)] if op.startswith("is_") else [FVar(op, "v")]):
-            for gi in range(ngraphs):
-                g = gen_graph(rng, sc, 5)
-                q = edge_node("Nodes", props=[prop_node("id", outputs=["rid"])], edges=[mk()])
-                args = {} if op.startswith("is_") else {"v": L([I(1), I(3)]) if "one_of" in op else I(rng.choice([1, 2, 3]))}
-                out.append(make_instance(start_id + len(out), sc, g, q, args, cls={"family": "hints", "source": "variable", "op": op, "combo": "stat", "target": tname}))
+            for c in ([None] if op.startswith("is_") else consts):
+                for gi in range(ngraphs if c is None else 1):
+                    g = gen_graph(rng, sc, 5)
+                    q = edge_node("Nodes", props=[prop_node("id", outputs=["rid"])], edges=[mk()])
+                    args = {} if op.startswith("is_") else {"v": L([c, I(3)]) if "one_of" in op else c}
+                    out.append(make_instance(start_id + len(out), sc, g, q, args, cls={"family": "hints", "source": "variable", "op": op, "combo": "stat", "target": tname}))
     return out
 
 if __name__ == "__main__":
